@@ -154,6 +154,17 @@ Theorem C15_line_string_at_agrees : forall t ns us,
 Proof. exact line_string_at_agrees_lemma. Qed.
 Print Assumptions C15_line_string_at_agrees.
 
+(* without the annotation hypotheses: whenever the due updates are in range, LineStringAt(t) is
+   the list of points of the applied copy filtered by which ORIGINAL nodes are annotated (so
+   the two queries differ exactly when applying an update changes whether a node counts as
+   annotated) *)
+Theorem C15_line_string_at_general : forall t ns us,
+  all_in_range t (length ns) us = true ->
+  exists ns' p, way_apply t ns us = AOk ns' p /\
+                line_string_at t ns us = Some (keep_annotated ns (map node_point ns')).
+Proof. exact line_string_at_general_lemma. Qed.
+Print Assumptions C15_line_string_at_general.
+
 (* the code before fix commit 4e35af7 (`break` on the first too-late update) violates it *)
 Theorem C15_line_string_at_break_refuted : exists t ns us ns' p,
   fully_annotated ns = true /\ updates_ok t (length ns) us = true /\
@@ -200,6 +211,17 @@ Theorem C15_sorted_by_index : forall l l',
 Proof. intros l l' _ H. split; [apply sorted_index_lex|apply sorted_index_per_index_sorted]; exact H. Qed.
 Print Assumptions C15_sorted_by_index.
 
+(* whatever permutation sort.Sort picks among ties, the sequence of sort keys is determined *)
+Theorem C15_sorted_keys_unique : forall l1 l2,
+  Permutation l1 l2 ->
+  (sorted_for less_ts l1 -> sorted_for less_ts l2 -> map u_ts l1 = map u_ts l2) /\
+  (sorted_for less_index l1 -> sorted_for less_index l2 -> map key_index l1 = map key_index l2).
+Proof.
+  intros l1 l2 Hp. split; intros H1 H2;
+    [exact (sorted_ts_keys_unique l1 l2 Hp H1 H2)|exact (sorted_index_keys_unique l1 l2 Hp H1 H2)].
+Qed.
+Print Assumptions C15_sorted_keys_unique.
+
 (* ---------- non-vacuity ---------- *)
 Definition ex_nodes := [mkNode 1 1 7 1 1; mkNode 2 1 7 2 2; mkNode 3 2 8 3 3].
 (* stored index-sorted (as annotation produces): NOT in time order *)
@@ -222,6 +244,16 @@ Example C15_ex_apply :
   = AOk [mkNode 1 3 4 30 31; mkNode 2 4 5 40 41; mkNode 3 2 8 3 3] [mkUpdate 0 5 50 6 50 51 false]
   /\ line_string_at 45 ex_nodes ex_updates = Some [(31, 30); (41, 40); (3, 3)]
   /\ line_string_at_break 45 ex_nodes ex_updates = Some [(31, 30); (2, 2); (3, 3)].
+Proof. repeat split; vm_compute; reflexivity. Qed.
+
+(* outside the annotation hypotheses the two geometry queries really differ: node 1 is not
+   annotated in the stored way, the update annotates it *)
+Example C15_ex_general_differs :
+  all_in_range 20 2 [mkUpdate 0 2 10 0 5 5 false] = true /\
+  line_string_at 20 [mkNode 1 0 0 0 0; mkNode 2 1 0 2 2] [mkUpdate 0 2 10 0 5 5 false] = Some [(2, 2)] /\
+  way_apply 20 [mkNode 1 0 0 0 0; mkNode 2 1 0 2 2] [mkUpdate 0 2 10 0 5 5 false]
+  = AOk [mkNode 1 2 0 5 5; mkNode 2 1 0 2 2] [] /\
+  line_string [mkNode 1 2 0 5 5; mkNode 2 1 0 2 2] = [(5, 5); (2, 2)].
 Proof. repeat split; vm_compute; reflexivity. Qed.
 
 Example C15_ex_relation :
